@@ -1420,8 +1420,15 @@ func (fr *Frame) slice(x *ssa.Slice, st *State, reach string) {
 		return
 	}
 	// pointer to array: load it
-	if _, ok := x.X.Type().Underlying().(*types.Pointer); ok {
-		base = fc.load(st, base)
+	if pt, ok := x.X.Type().Underlying().(*types.Pointer); ok {
+		if g, isG := x.X.(*ssa.Global); isG {
+			base = fc.loadGlobal(g, pt.Elem())
+		} else {
+			base = fc.load(st, base)
+		}
+		if base.Typ == nil {
+			base.Typ = pt.Elem()
+		}
 	}
 	ln := fr.lenOf(base)
 	lo, hi := "0", ln
@@ -1657,6 +1664,10 @@ func (fr *Frame) modSet(body map[int]*ssa.BasicBlock) modSet {
 				}
 			case *ssa.Alloc:
 				ms.heaps[fc.B.SortOf(x.Type().Underlying().(*types.Pointer).Elem())] = true
+			case *ssa.Next:
+				if it, ok := fr.vals[x.Iter]; ok && it.Fn != nil && it.Fn.Special == "maprange" && len(it.Fn.Data) > 4 {
+					ms.ghosts[it.Fn.Data[4].T] = true
+				}
 			case *ssa.MapUpdate:
 				ms.heaps[fc.mapSort(x.Map.Type().Underlying().(*types.Map))] = true
 			case *ssa.MakeMap:
@@ -1724,8 +1735,11 @@ func (fr *Frame) rangeInit(x *ssa.Range, st *State) {
 		fc.B.Assert(implies(eq(v.T, "0"), eq(n, "0")))
 		// every listed key is in the map; every key in the map is listed exactly once (via idxOf inverse)
 		fc.B.Assert(fmt.Sprintf("(forall ((i Int)) (! (=> (and (<= 0 i) (< i %s)) (and (select (m_dom %s) (select %s i)) (= (%s (select %s i)) i))) :pattern ((select %s i))))", n, cur, seq, idxOf, seq, seq))
-		fc.B.Assert(fmt.Sprintf("(forall ((k %s)) (! (=> (select (m_dom %s) k) (and (<= 0 (%s k)) (< (%s k) %s) (= (select %s (%s k)) k))) :pattern ((%s k))))", ks, cur, idxOf, idxOf, n, seq, idxOf, idxOf))
-		fr.vals[x] = Val{S: "Int", T: "0", Typ: x.Type(), Fn: &FnVal{Special: "maprange", Data: []Val{v, {S: "(Array Int " + ks + ")", T: seq}, {S: "Int", T: n}, {S: ms, T: cur, Typ: x.X.Type()}}}}
+		fc.B.Assert(fmt.Sprintf("(forall ((k %s)) (! (=> (select (m_dom %s) k) (and (<= 0 (%s k)) (< (%s k) %s) (= (select %s (%s k)) k))) :pattern ((%s k)) :pattern ((select (m_dom %s) k))))", ks, cur, idxOf, idxOf, n, seq, idxOf, idxOf, cur))
+		gk := fmt.Sprintf("#mappos%d", len(fc.mapRanges)+1)
+		fc.mapRanges = append(fc.mapRanges, mapRangeInfo{seq: seq, n: n, ghost: gk, keySort: ks, keyType: t.Key()})
+		st.ghosts[gk] = "0"
+		fr.vals[x] = Val{S: "Int", T: "0", Typ: x.Type(), Fn: &FnVal{Special: "maprange", Data: []Val{v, {S: "(Array Int " + ks + ")", T: seq}, {S: "Int", T: n}, {S: ms, T: cur, Typ: x.X.Type()}, {S: "String", T: gk}}}}
 		fc.B.Note("map range modelled as an arbitrary-order enumeration of the key set at loop entry")
 	case *types.Basic: // string
 		fr.vals[x] = Val{S: "Int", T: "0", Typ: x.Type(), Fn: &FnVal{Special: "strrange", Data: []Val{v}}}
@@ -1740,13 +1754,19 @@ func (fr *Frame) rangeNext(x *ssa.Next, st *State, reach string) {
 	it := fr.get(x.Iter)
 	tup := x.Type().(*types.Tuple)
 	if it.Fn != nil && it.Fn.Special == "maprange" {
-		// position counter is a ghost loop-carried value: we use a fresh position constrained by the invariant "mappos"
+		// the position in the ghost key sequence is loop-carried ghost state ("mappos<k>" in invariants):
+		// Next reads it and advances it by one
 		mt := it.Fn.Data[3].Typ.Underlying().(*types.Map)
-		pos := fc.B.Fresh("mappos", "Int")
+		gk := it.Fn.Data[4].T
+		pos, has := st.ghosts[gk]
+		if !has {
+			pos = "0"
+		}
 		n := it.Fn.Data[2].T
 		seq := it.Fn.Data[1].T
-		fc.B.Assert(and("(<= 0 "+pos+")", "(<= "+pos+" "+n+")"))
+		fc.B.Assert(implies(reach, and("(<= 0 "+pos+")", "(<= "+pos+" "+n+")")))
 		ok := "(< " + pos + " " + n + ")"
+		st.ghosts[gk] = fc.def("mappos", "Int", ite(ok, "(+ "+pos+" 1)", pos))
 		k := fc.mkVal(mt.Key(), "(select "+seq+" "+pos+")")
 		// value read from the *current* map (Go semantics: entries removed/changed during iteration are seen live)
 		ms := fc.mapSort(mt)
